@@ -293,8 +293,15 @@ class Summariser:
         it.register_index(k)
         it.facts.append(self.n >= 0)
         heap0 = it.heap.copy()
-        env0 = dict(self.env)
         names = assigned_names(self.node.body)
+        import numpy as _np
+
+        for name in set(names) | mutated_names(self.node.body):
+            v = self.env.get(name)
+            if isinstance(v, _np.ndarray) and v.ndim == 1 and v.dtype != object:
+                # a concrete array that the loop updates: same contents as a symbolic local array
+                self.env[name] = LArr(len(v), it._list_reader([x.item() for x in v]), dtype="float" if v.dtype.kind == "f" else ("bool" if v.dtype == bool else "int"))
+        env0 = dict(self.env)
         target_names = assigned_names([ast.Assign(targets=[self.node.target], value=ast.Constant(0))]) if True else set()
 
         # ---- discovery run: placeholders for loop-carried locals
@@ -310,7 +317,7 @@ class Summariser:
                 ph_s[name] = p
                 envd[name] = p
         seen_arr = {}
-        mut = mutated_names(self.node.body)
+        mut = mutated_names(self.node.body) | set(names)
         for name, v in env0.items():
             if isinstance(v, LArr) and name in mut:
                 if id(v) in seen_arr:
